@@ -706,6 +706,31 @@ ReaderVerdict(ev) ==
   IN [bad |-> bad \cup LedgerCls(ev, "_read_" \o ev.fmt), arb |-> {}, cov |-> {"C16.read_" \o ev.fmt}]
 
 (***************************************************************************)
+(* Fortran-callable bridge (C20).  sc.gref = the last simple-driver call of *)
+(* the scenario (matrix, right-hand sides, solution): a bridge solve of the *)
+(* same system must return the same bits.                                   *)
+(***************************************************************************)
+BridgeVerdict(ev, sc) ==
+  LET n == ev.n  cplx == IsCplx(ev.ty)
+      aok == \A t \in 1..Len(ev.A0) : ValOK(ev.A0[t][3], cplx) /\ ATokSmall(ev.A0[t][3], cplx)
+      A == DenseOf(ev.A0, n, n, cplx, FALSE)
+      sv == IF ev.iopt = 2 /\ ev.info = 0 /\ Has(ev, "B0") /\ ev.nrhs > 0 THEN SolveVerdict(ev, A, aok, n, ev.B1, cplx, "C20.residual")
+            ELSE [arb |-> {}, cov |-> {}, nexact |-> 0, allexact |-> FALSE]
+      sameSystem == sc.gref # <<>> /\ Has(ev, "B0") /\ sc.gref[1] = ev.A0 /\ sc.gref[2] = ev.B0
+      bad == (IF ev.arrays_same # 1 THEN {"C20.caller_arrays_modified"} ELSE {})
+             \cup (IF ev.iopt = 1 /\ ev.info = 0 /\ ev.live_delta <= 0 THEN {"C20.factor_owns_nothing"} ELSE {})
+             \cup (IF ev.iopt = 1 /\ Has(ev, "B_same") /\ ev.B_same # 1 THEN {"C20.factor_touched_b"} ELSE {})
+             \cup (IF ev.iopt = 2 /\ ev.live_delta # 0 THEN {"C20.solve_retains_allocation"} ELSE {})
+             \cup (IF ev.iopt = 2 /\ ev.info = 0 /\ sameSystem /\ ev.B1 # sc.gref[3] THEN {"C20.solution_differs_from_simple_driver"} ELSE {})
+             \cup (IF ev.iopt = 2 /\ Has(ev, "padB_same") /\ ev.padB_same # 1 THEN {"C20.padding_written"} ELSE {})
+             \cup (IF ev.iopt = 3 /\ ev.live_delta >= 0 THEN {"C20.free_released_nothing"} ELSE {})
+             \* a free request releases exactly what the factor request of that handle allocated and kept
+             \cup (IF ev.iopt = 3 /\ ev.live_delta # -sc.bown[ev.slot + 1] THEN {"C20.free_does_not_release_what_the_handle_owns"} ELSE {})
+             \cup (IF ev.bad_frees # 0 THEN {"C20.bad_free"} ELSE {})
+             \cup (IF ev.redzone # 0 THEN {"C20.redzone"} ELSE {})
+  IN [bad |-> bad, arb |-> sv.arb, cov |-> sv.cov \cup {"C20.iopt_" \o ToString(ev.iopt)} \cup (IF ev.iopt = 2 /\ sameSystem THEN {"C20.compared_with_simple_driver"} ELSE {})]
+
+(***************************************************************************)
 (* Rejected calls (C18): the routine reports the position SluScreen!Screen  *)
 (* computes from the violated preconditions, every caller object is byte-   *)
 (* identical and no allocation is retained.                                 *)
@@ -733,6 +758,7 @@ Verdict(ev, pm, sc) ==
         [] ev.fn = "order" -> OrderVerdict(ev, sc)
         [] ev.fn = "ldperm" -> MatchVerdict(ev)
         [] ev.fn = "read" -> ReaderVerdict(ev)
+        [] ev.fn = "bridge" -> BridgeVerdict(ev, sc)
         [] ev.fn = "trsv" -> TrsvVerdict(ev)
         [] ev.fn = "gemv" -> GemvVerdict(ev)
         [] ev.fn = "gemm" -> GemmVerdict(ev)
@@ -750,23 +776,47 @@ Verdict(ev, pm, sc) ==
   ELSE IF IsRefineEvent(ev) THEN RefineVerdict(sc.rf, ev)
   ELSE [bad |-> {}, arb |-> {}, cov |-> {}]
 
-VARIABLES l, pm, sc
-vars == <<l, pm, sc>>
-NoCtx == [ordref |-> <<>>, rf |-> [j |-> -1, count |-> 0, want |-> FALSE], ref |-> <<>>, refd2 |-> FALSE, leaked |-> FALSE, memfail |-> FALSE, ty |-> "d", liw |-> 4, id |-> "", nexp |-> 0, memev |-> FALSE]
-TInit == l = 1 /\ pm = <<>> /\ sc = NoCtx
+VARIABLES l, pm, sc, solo      \* solo: scenario id -> outputs of its calls when executed alone (C09)
+vars == <<l, pm, sc, solo>>
+NoCtx == [mode |-> "", cnt |-> 0, first |-> <<>>, repeat |-> FALSE, gref |-> <<>>, bown |-> <<0, 0, 0, 0>>, ordref |-> <<>>, rf |-> [j |-> -1, count |-> 0, want |-> FALSE], ref |-> <<>>, refd2 |-> FALSE, leaked |-> FALSE, memfail |-> FALSE, ty |-> "d", liw |-> 4, id |-> "", nexp |-> 0, memev |-> FALSE]
+TInit == l = 1 /\ pm = <<>> /\ sc = NoCtx /\ solo = <<>>
+\* what a call returns to its caller (everything but the allocation ledger, which is global)
+ProjKeys == {"fn", "info", "equed", "perm_c", "perm_r", "etree", "R", "C", "L", "U", "X1", "B1", "A1v", "rcond", "rpg", "ferr", "berr", "steps",
+             "expansions", "mem", "perm", "u", "v", "ret", "x1", "y1", "colbeg", "colend", "rowcnd", "colcnd", "amax", "b_colptr", "b_rowind"}
+Proj(ev) == [k \in (DOMAIN ev) \cap ProjKeys |-> ev[k]]
+SoloOf(id) == LET S == {i \in 1..Len(solo) : solo[i][1] = id} IN IF S = {} THEN <<>> ELSE solo[CHOOSE i \in S : TRUE][2]
+ConcVerdict(ev, ctx) ==
+  IF ev.e # "Ret" THEN [bad |-> {}, cov |-> {}]
+  ELSE IF ctx.mode = "mt" THEN
+       LET ref == SoloOf(ev.id) IN
+       [bad |-> (IF Len(ref) < ctx.cnt + 1 THEN {"C09.no_solo_reference"} ELSE IF ref[ctx.cnt + 1] # Proj(ev) THEN {"C09.output_differs_from_the_call_executed_alone"} ELSE {}),
+        cov |-> {"C09.compared_with_solo"}]
+  ELSE IF ctx.repeat /\ ctx.first # <<>> THEN
+       [bad |-> (IF ctx.first # Proj(ev) THEN {"C09.repeated_call_differs"} ELSE {}), cov |-> {"C09.repeat_compared"}]
+  ELSE [bad |-> {}, cov |-> {}]
 TNext == /\ l <= Len(Tr)
-         /\ LET ev == Tr[l]  v == Verdict(ev, pm, sc) IN
+         /\ LET ev == Tr[l]  v == Verdict(ev, pm, sc)  cv == ConcVerdict(ev, sc) IN
             /\ PrintT(ToJson([line |-> l, id |-> (IF Has(ev, "id") THEN ev.id ELSE sc.id), e |-> ev.e,
                               fn |-> (IF Has(ev, "fn") THEN ev.fn ELSE ev.e),
-                              bad |-> v.bad, arb |-> v.arb, cov |-> v.cov]))
+                              bad |-> v.bad \cup cv.bad, arb |-> v.arb, cov |-> v.cov \cup cv.cov]))
+            /\ solo' = IF ev.e = "Ret" /\ sc.mode = "solo"
+                       THEN (IF \E i \in 1..Len(solo) : solo[i][1] = ev.id
+                             THEN [i \in 1..Len(solo) |-> IF solo[i][1] = ev.id THEN <<ev.id, Append(solo[i][2], Proj(ev))>> ELSE solo[i]]
+                             ELSE Append(solo, <<ev.id, <<Proj(ev)>>>>))
+                       ELSE solo
             /\ pm' = IF IsMemEvent(ev) THEN ev ELSE IF ev.e \in {"RedZone", "AllocFail", "BadFree", "RefineIter", "RefineStep", "RefineStop"} THEN pm ELSE <<>>
             /\ sc' = IF ev.e = "Reset" THEN [NoCtx EXCEPT !.ty = ev.ty, !.id = ev.id]
                      ELSE IF IsMemEvent(ev) THEN
                           [sc EXCEPT !.memfail = sc.memfail \/ MemFailure(ev), !.memev = TRUE,
                                      !.nexp = IF ev.e = "Expand" /\ ev.ok = 1 /\ pm # <<>> /\ pm.e = "ExpandBegin" /\ pm.numexp > 0 THEN sc.nexp + 1 ELSE sc.nexp]
+                     ELSE IF ev.e = "Mode" THEN [sc EXCEPT !.mode = ev.mode]
+                     ELSE IF ev.e = "Mark" THEN [sc EXCEPT !.repeat = (ev.tag = "repeat")]
                      ELSE IF IsRefineEvent(ev) THEN [sc EXCEPT !.rf = RefineNext(sc.rf, ev)]
                      ELSE IF ev.e = "Ret" THEN
-                          [sc EXCEPT !.ordref = (IF Has(v, "ord") THEN v.ord ELSE sc.ordref), !.rf = NoCtx.rf, !.leaked = sc.leaked \/ (Has(ev, "ledger") /\ ev.ledger.live_internal # 0), !.memfail = FALSE, !.liw = (IF Has(ev, "itsz") THEN ev.itsz ELSE sc.liw), !.nexp = 0, !.memev = FALSE,
+                          [sc EXCEPT !.cnt = sc.cnt + 1, !.first = (IF sc.first = <<>> THEN Proj(ev) ELSE sc.first), !.repeat = FALSE, !.gref = (IF ev.fn = "gssv" /\ ev.info = 0 /\ Has(ev, "B0") THEN <<ev.A0, ev.B0, ev.B1>> ELSE sc.gref),
+                                     \* what each bridge handle owns (ledger delta of its factor request)
+                                     !.bown = (IF ev.fn = "bridge" /\ ev.iopt = 1 THEN [sc.bown EXCEPT ![ev.slot + 1] = ev.live_delta] ELSE sc.bown),
+                                     !.ordref = (IF Has(v, "ord") THEN v.ord ELSE sc.ordref), !.rf = NoCtx.rf, !.leaked = sc.leaked \/ (Has(ev, "ledger") /\ ev.ledger.live_internal # 0), !.memfail = FALSE, !.liw = (IF Has(ev, "itsz") THEN ev.itsz ELSE sc.liw), !.nexp = 0, !.memev = FALSE,
                                      !.ref = IF sc.ref = <<>> /\ Has(v, "digs") THEN v.digs ELSE sc.ref,
                                      !.refd2 = IF sc.ref = <<>> /\ Has(v, "digs") THEN v.d2 ELSE sc.refd2]
                      ELSE sc
